@@ -120,13 +120,14 @@ class PathEval:
                 self._assign_target(s.target, v, nid)
             elif isinstance(s, ast.Expr):
                 c = s.value
+                logged = self.ev(s.value)
                 # list growth through methods is an assignment in disguise: xs.append(v) == xs = xs + [v], xs.extend(it) == xs = xs + it
                 if isinstance(c, ast.Call) and isinstance(c.func, ast.Attribute) and c.func.attr in ("append", "extend") and isinstance(c.func.value, ast.Name) and c.func.value.id in self.env and len(c.args) == 1 and not c.keywords:
                     cur = self.env[c.func.value.id]
                     add = self.ev(ast.List(elts=[c.args[0]], ctx=ast.Load())) if c.func.attr == "append" else self.ev(c.args[0])
-                    self._assign_target(ast.Name(id=c.func.value.id, ctx=ast.Store()), self.nf._binop_polys(cur, add, ast.Add()), nid)
+                    self.env[c.func.value.id] = self.nf._binop_polys(cur, add, ast.Add())
                 # calls for effect: record (rules may inspect the log)
-                self.log.append((nid, "<expr>", self.ev(s.value)))
+                self.log.append((nid, "<expr>", logged))
         elif n.kind == "for" and label is True:
             it = self.ev(s.iter)
             self._assign_target(s.target, Poly.atom(f"iter({it.canon()})", it.deps, frozenset()), nid)
